@@ -170,6 +170,17 @@ theorem stmt_tree_roundtrip (fmt : Bool) (l ind depth n f : Nat) (ss : List Stmt
       .ok (ss, ind', depth - 1, rest) :=
   qstmts_all ss fmt l ind depth n f rest hwf hd hh hf
 
+/-- … in particular with the fuel the parser has when it is started on the text: `length + 1` of its input (every
+    statement prints at least three bytes). -/
+theorem stmt_tree_roundtrip_input_fuel (fmt : Bool) (l ind depth n : Nat) (ss : List Stmt) (rest : Bytes)
+    (hwf : WfStmts ss) (hd : 0 < depth) (hh : depth + heightL ss ≤ 500) :
+    ∃ ind', parseStmt.parseChildren ((10 :: (printStmts fmt l ss ++ (spaces n ++ 125 :: rest))).length + 1) ind depth
+        (10 :: (printStmts fmt l ss ++ (spaces n ++ 125 :: rest))) = .ok (ss, ind', depth - 1, rest) :=
+  stmt_tree_roundtrip fmt l ind depth n _ ss rest hwf hd hh (by
+    have := needL_le ss fmt l hwf
+    simp only [List.length_cons, List.length_append]
+    omega)
+
 /-- the same for one statement, entered as `parse_ext_substmt` is: after its keyword -/
 theorem stmt_roundtrip (fmt : Bool) (l ind depth f : Nat) (s : Stmt) (rest : Bytes)
     (hwf : WfStmt s) (hh : depth + height s ≤ 500) (hf : need s ≤ f) :
